@@ -41,6 +41,13 @@ def unit_cases(rng, n):
         out.append({'what': 'Noh units', 'a': ['exactpack.solvers.noh.noh1', 'Noh', {'geometry': g, 'gamma': gam, 'u0': u0, 'rho0': rho0}, pts, t],
                     'b': ['exactpack.solvers.noh.noh1', 'Noh', {'geometry': g, 'gamma': gam, 'u0': u0 * ell / tau, 'rho0': rho0 * mu / ell ** 3}, spts, t * tau],
                     'factors': hyd, 'tol': 1e-9, 'scales': [mu, ell, tau]})
+        # Noh2 (uniform collapse at t = 1: the time unit is fixed by the problem, mass and length units are free)
+        e0 = round(rng.uniform(0.3, 3), 4); t2 = round(rng.uniform(0.05, 0.9), 4)
+        hyd2 = {'density': mu / ell ** 3, 'velocity': ell, 'pressure': mu / ell, 'specific_internal_energy': ell ** 2}
+        for cls2, mod2 in (('Noh2', 'exactpack.solvers.noh2.noh2'), ('Noh2Cog', 'exactpack.solvers.noh2.noh2_cog')):
+            out.append({'what': cls2 + ' units', 'a': [mod2, cls2, {'geometry': g, 'gamma': gam, 'rho0': rho0, 'e0': e0}, pts, t2],
+                        'b': [mod2, cls2, {'geometry': g, 'gamma': gam, 'rho0': rho0 * mu / ell ** 3, 'e0': e0 * ell ** 2}, spts, t2],
+                        'factors': hyd2, 'tol': 1e-9, 'scales': [mu, ell, 1.0]})
         # ideal-gas Riemann
         P = {'pl': round(rng.uniform(0.3, 3), 4), 'pr': round(rng.uniform(0.3, 3), 4), 'rl': round(rng.uniform(0.3, 3), 4), 'rr': round(rng.uniform(0.3, 3), 4),
              'ul': round(rng.uniform(-1, 1), 4), 'ur': round(rng.uniform(-1, 1), 4), 'gl': gam, 'gr': round(rng.uniform(1.1, 2.5), 4),
@@ -72,6 +79,22 @@ def selfsim_cases(rng, n):
             p = dict({'geometry': g, 'gamma': gam, 'u0': u0, 'rho0': rho0}, **extra)
             out.append({'what': cls + ' self-similarity', 'a': [mod, cls, p, pts, t], 'b': [mod, cls, p, [lam * x for x in pts], lam * t],
                         'factors': one, 'tol': 1e-10, 'scales': [lam]})
+        # escape of HE products, region I (2 up + D/2 < x/t < D, t <= ttilde = xtilde / D): depends on x/t only
+        D = round(rng.uniform(0.3, 2), 4); up = round(rng.uniform(0.0, 0.2) * D, 4); xt = round(rng.uniform(0.5, 2.5), 4)
+        pe = {'D': D, 'rho_0': round(rng.uniform(0.5, 3), 4), 'up': up, 'xtilde': xt, 'xmax': 50.0, 'tmax': 50.0}
+        xi = [(2 * up + D / 2) + (D / 2 - 2 * up) * f for f in (0.03, 0.2, 0.5, 0.8, 0.97)]
+        t1 = round(rng.uniform(0.05, 0.6), 4) * xt / D; t2 = round(rng.uniform(0.05, 0.99), 4) * xt / D
+        one5 = dict(one, sound_speed=1.0)
+        out.append({'what': 'EHEP region I self-similarity', 'a': ['exactpack.solvers.ehep', 'EscapeOfHEProducts', pe, [x * t1 for x in xi], t1],
+                    'b': ['exactpack.solvers.ehep', 'EscapeOfHEProducts', pe, [x * t2 for x in xi], t2], 'factors': one5, 'tol': 1e-10, 'scales': [t2 / t1]})
+        # Mader: cell averages; the grid (hence the cell size) is scaled with t
+        pm = {'p_cj': round(rng.uniform(0.1, 1), 4), 'd_cj': round(rng.uniform(0.3, 1.5), 4), 'gamma': round(rng.uniform(2.2, 3.5), 4),
+              'u_piston': round(rng.uniform(0.0, 0.1), 4)}
+        tm = round(rng.uniform(1, 8), 4); front = pm['d_cj'] * tm; nx = rng.choice([23, 57, 97])
+        xm = [front * (0.02 + 0.96 * k / (nx - 1)) for k in range(nx)]
+        out.append({'what': 'Mader self-similarity', 'a': ['exactpack.solvers.mader', 'Mader', pm, xm, tm],
+                    'b': ['exactpack.solvers.mader', 'Mader', pm, [lam * x for x in xm], lam * tm],
+                    'factors': {'velocity': 1.0, 'pressure': 1.0, 'sound_speed': 1.0, 'density': 1.0, 'xdet': lam}, 'tol': 1e-8, 'scales': [lam]})
     return out
 
 
